@@ -249,7 +249,9 @@ func CheckC02Build(c C02BuildCase) *ev.Failure {
 			WriteTree(pr, enc)
 			pr.Flush(bg)
 			var err error
-			if pn := catchPanic(func() { err = obj.Read(bg, pf.GetProtocol(&thrift.TMemoryBuffer{Buffer: bytes.NewBuffer(buf.Bytes())})) }); pn != "" {
+			if pn := catchPanic(func() {
+				err = obj.Read(bg, pf.GetProtocol(&thrift.TMemoryBuffer{Buffer: bytes.NewBuffer(buf.Bytes())}))
+			}); pn != "" {
 				return ev.Failf("read-panic", "%s: Read panicked: %s%s", what, pn, ctx())
 			}
 			if err != nil {
